@@ -36,6 +36,7 @@ func (c *Ctx) execNext(fr *Frame, x *ssa.Next, st *State, reach string) {
 	c.assume(reach, fmt.Sprintf("(=> %s (and (not (= %s 0)) (select (select %s %s) %s)))", ok, it.T, h, it.T, k))
 	c.assume(reach, implies(ok, c.typeFact(k, mt.Key(), st, 1)))
 	c.assume(reach, implies(ok, c.typeFact(v, mt.Elem(), st, 1)))
+	c.wfRead(and(reach, ok), v, mt.Elem(), st)
 	fr.vals[x] = Val{Tup: []Val{{T: ok, Typ: types.Typ[types.Bool]}, {T: k, Typ: mt.Key()}, {T: v, Typ: mt.Elem()}}, Typ: x.Type()}
 }
 
@@ -134,7 +135,26 @@ func (c *Ctx) frameCheck(fr *Frame, l *Loc, st *State, reach string, pos token.P
 	if l.Kind == LLocal {
 		return
 	}
+	arr := l.Array
+	if arr == "" && len(l.Path) > 0 && !l.Path[0].isIdx {
+		arr, _ = c.sorts.FieldArray(l.Root, l.Path[0].field)
+	}
+	if c.ecExempt(arr) {
+		return
+	}
 	c.frameCheckRef(fr, l.Ref, "store", st, reach, pos)
+}
+
+// ecExempt: writes to EC-frame memory are not C06's concern unless the function promises `assigns nothing`.
+func (c *Ctx) ecExempt(arr string) bool {
+	if arr == "" {
+		return false
+	}
+	if _, isEC := c.mods.ECArrays[arr]; !isEC {
+		return false
+	}
+	strict := c.contract != nil && c.contract.HasAssigns && len(c.contract.Assigns) == 0
+	return !strict
 }
 
 func (c *Ctx) frameCheckRef(fr *Frame, ref, what string, st *State, reach string, pos token.Pos) {
@@ -156,6 +176,9 @@ func (c *Ctx) assignsAllows(ref string) string {
 	}
 	var alts []string
 	for _, a := range c.contract.Assigns {
+		if a == "EC" || a == "heap" {
+			continue
+		}
 		e, err := ParseSpec(a)
 		if err != nil {
 			continue
@@ -166,7 +189,11 @@ func (c *Ctx) assignsAllows(ref string) string {
 			c.unsupportedf("assigns %q: %v", a, err)
 			continue
 		}
-		alts = append(alts, fmt.Sprintf("(= %s %s)", ref, tv.T))
+		t := tv.T
+		if _, isSl := typUnder(tv.Typ).(*types.Slice); isSl {
+			t = "(s_arr " + t + ")"
+		}
+		alts = append(alts, fmt.Sprintf("(= %s %s)", ref, t))
 	}
 	return or(alts...)
 }
@@ -314,10 +341,25 @@ func (c *Ctx) inlineCall(fr *Frame, st *State, reach, name string, fn *ssa.Funct
 
 // callHavoc: a repo callee without contract: result unconstrained (typed), heap per inferred mod-set.
 func (c *Ctx) callHavoc(fr *Frame, st *State, reach, name string, pos token.Pos, fn *ssa.Function, args []Val, resType types.Type) Val {
+	// the default precondition of a swept function (parameters well-formed by type) is an obligation here
+	if c.wants("WF") {
+		for i, p := range fn.Params {
+			if i >= len(args) || args[i].T == "" {
+				continue
+			}
+			for _, f := range c.defaultFactsFor(args[i].T, p.Type(), st) {
+				c.oblige("WF", "WF.arg", pos, reach, f, fmt.Sprintf("argument %d of %s must be well-formed (default precondition of a function without written contract)", i+1, c.w.keyOfAny(fn)))
+			}
+		}
+	}
 	ms := c.modsAtCurCall(fn)
 	c.callEffects(st, reach, pos, ms, c.w.keyOfAny(fn))
 	c.noteAssumption(fmt.Sprintf("callee %s has no contract: result unconstrained, effects = inferred mod-set", c.w.keyOfAny(fn)))
-	return c.freshResult(st, reach, name, resType)
+	res := c.freshResult(st, reach, name, resType)
+	if c.valueResult(fn) && res.T != "" {
+		c.assume(reach, c.isValTerm(res.T))
+	}
+	return res
 }
 
 func (c *Ctx) noteAssumption(s string) { c.assumptions[s] = true }
@@ -330,6 +372,13 @@ func (c *Ctx) freshResult(st *State, reach, name string, resType types.Type) Val
 	}
 	v := c.havocVal(name, resType)
 	c.assumeTyped(reach, v, resType, st, 2)
+	if tup, ok := resType.(*types.Tuple); ok {
+		for i := 0; i < tup.Len() && i < len(v.Tup); i++ {
+			c.assumeInv(reach, v.Tup[i].T, tup.At(i).Type(), st)
+		}
+	} else {
+		c.assumeInv(reach, v.T, resType, st)
+	}
 	return v
 }
 
@@ -340,6 +389,25 @@ func (c *Ctx) callDynamic(fr *Frame, st *State, reach, name string, pos token.Po
 	// parameter contract?
 	if ps := c.paramSpecFor(fr, cc.Value); ps != nil {
 		return c.applyParamSpec(fr, st, reach, name, pos, ps, fv, args, resType)
+	}
+	if c.mods.isPureFuncType(cc.Value.Type()) {
+		ms := newModSet()
+		ms.FreshTop = true
+		c.callEffects(st, reach, pos, ms, "function value "+cc.Value.Name()+" of effect-free type")
+		c.noteAssumption("call through a value of type " + types.TypeString(cc.Value.Type(), nil) + ": result well-typed, no write to pre-existing memory (proved for every function of that type in the sweep)")
+		return c.freshResult(st, reach, name, resType)
+	}
+	if c.mods.isECFuncType(cc.Value.Type()) {
+		ms := newModSet()
+		ms.EC = true
+		ms.Locks = true
+		c.callEffects(st, reach, pos, ms, "function value "+cc.Value.Name()+" of EC-framed type")
+		c.noteAssumption("call through a value of type " + types.TypeString(cc.Value.Type(), nil) + ": result is a value, effects bounded by the EC frame (proved for every function of that type in the sweep)")
+		r := c.freshResult(st, reach, name, resType)
+		if isPanObjectIface(resType) && r.T != "" {
+			c.assume(reach, c.isValTerm(r.T))
+		}
+		return r
 	}
 	c.callEffects(st, reach, pos, &ModSet{Top: true}, "through function value "+cc.Value.Name())
 	c.noteAssumption("dynamic call through " + cc.Value.Name() + ": result unconstrained, all heap havoced")
@@ -482,9 +550,43 @@ func (c *Ctx) applyContract(fr *Frame, st *State, reach, name string, pos token.
 			c.oblige("FRAME", "FRAME.fnarg", pos, reach, goal, why)
 		}
 	}
-	// effects
-	c.callEffects(st, reach, pos, c.contractMods(fn, con), con.Key)
+	// object-level assigns: the callee may write the named objects; the caller must own them
+	var assignRefs []string
+	if con.HasAssigns {
+		for _, a := range con.Assigns {
+			if a == "EC" || a == "heap" {
+				continue
+			}
+			e, err := ParseSpec(a)
+			if err != nil {
+				c.unsupportedf("assigns %q of %s: %v", a, con.Key, err)
+				continue
+			}
+			tv, err := ev.eval(e)
+			if err != nil {
+				c.unsupportedf("assigns %q of %s: %v", a, con.Key, err)
+				continue
+			}
+			ref := tv.T
+			if _, isSl := typUnder(tv.Typ).(*types.Slice); isSl {
+				ref = "(s_arr " + ref + ")"
+			}
+			assignRefs = append(assignRefs, ref)
+			if c.wants("FRAME") {
+				c.oblige("FRAME", "FRAME.callassign", pos, reach, or("(= "+ref+" 0)", c.freshOrAssignable(ref)),
+					"callee "+con.Key+" may write "+a+": it must be fresh here or in this function's own assigns clause")
+			}
+		}
+	}
+	if len(assignRefs) > 0 {
+		c.applyModsExcept(st, c.modsAtCurCall(fn), assignRefs)
+	} else {
+		c.callEffects(st, reach, pos, c.contractMods(fn, con), con.Key)
+	}
 	res := c.freshResult(st, reach, name, resType)
+	if c.valueResult(fn) && res.T != "" {
+		c.assume(reach, c.isValTerm(res.T))
+	}
 	post := c.newSpecEval(nil, st, pre)
 	post.pkg = con.Pkg
 	post.allocOld = pre.alloc
@@ -619,7 +721,7 @@ func (c *Ctx) execBuiltin(fr *Frame, st *State, reach, name string, pos token.Po
 		case *types.Basic:
 			return Val{T: "(strlen " + c.term(args[0]) + ")", Typ: resType}
 		case *types.Map:
-			ml := c.arr(st, MapLen, "Int")
+			ml := c.arr(st, c.sorts.MapLenT(t), "Int")
 			r := c.define(name, "Int", fmt.Sprintf("(ite (= %s 0) 0 (select %s %s))", c.term(args[0]), ml, c.term(args[0])))
 			c.assume(reach, fmt.Sprintf("(and (<= 0 %s) (<= %s MAXLEN))", r, r))
 			return Val{T: r, Typ: resType}
@@ -642,7 +744,7 @@ func (c *Ctx) execBuiltin(fr *Frame, st *State, reach, name string, pos token.Po
 		c.frameCheckRef(fr, "(s_arr "+d+")", "copy", st, reach, pos)
 		if sl, ok := cc.Args[0].Type().Underlying().(*types.Slice); ok {
 			es := c.sorts.Of(sl.Elem())
-			an := c.sorts.ElemArray(es)
+			an := c.sorts.ElemArrayT(sl.Elem())
 			a := c.arr(st, an, es)
 			na := c.havoc("copied", "(Array Int "+es+")")
 			n := c.havoc(name, "Int")
@@ -672,9 +774,10 @@ func (c *Ctx) execBuiltin(fr *Frame, st *State, reach, name string, pos token.Po
 		mt := cc.Args[0].Type().Underlying().(*types.Map)
 		hn, hs, _, _, _, _ := c.mapArrays(mt, st)
 		h := c.arr(st, hn, hs)
-		ml := c.arr(st, MapLen, "Int")
+		mln := c.sorts.MapLenT(mt)
+		ml := c.arr(st, mln, "Int")
 		had := fmt.Sprintf("(select (select %s %s) %s)", h, m, k)
-		c.setArr(st, MapLen, "Int", fmt.Sprintf("(ite (= %s 0) %s (store %s %s (ite %s (- (select %s %s) 1) (select %s %s))))", m, ml, ml, m, had, ml, m, ml, m))
+		c.setArr(st, mln, "Int", fmt.Sprintf("(ite (= %s 0) %s (store %s %s (ite %s (- (select %s %s) 1) (select %s %s))))", m, ml, ml, m, had, ml, m, ml, m))
 		c.setArr(st, hn, hs, fmt.Sprintf("(ite (= %s 0) %s (store %s %s (store (select %s %s) %s false)))", m, h, h, m, h, m, k))
 		return Val{Typ: resType}
 	case "print", "println":
@@ -701,7 +804,7 @@ func (c *Ctx) execAppend(fr *Frame, st *State, reach, name string, pos token.Pos
 	s := c.term(args[0])
 	sl := cc.Args[0].Type().Underlying().(*types.Slice)
 	es := c.sorts.Of(sl.Elem())
-	an := c.sorts.ElemArray(es)
+	an := c.sorts.ElemArrayT(sl.Elem())
 	a := c.arr(st, an, es)
 	var n string
 	var xs string
@@ -713,6 +816,22 @@ func (c *Ctx) execAppend(fr *Frame, st *State, reach, name string, pos token.Pos
 		xs = c.term(args[1])
 		n = "(s_len " + xs + ")"
 	}
+	if !isStr && c.wants("WF") && (isPanObjectIface(sl.Elem()) || len(c.typeInvsFor(sl.Elem())) > 0) {
+		// every appended element must be well-formed; single-element appends (the common case) are checked
+		// exactly, spreads of whole slices rely on the source slice's own well-formedness
+		if sv, ok := cc.Args[1].(*ssa.Slice); ok {
+			if al, ok := sv.X.(*ssa.Alloc); ok {
+				if at, ok := al.Type().(*types.Pointer).Elem().Underlying().(*types.Array); ok && at.Len() <= 4 {
+					esrt := c.sorts.Of(sl.Elem())
+					earr := c.arr(st, c.sorts.ElemArrayT(sl.Elem()), esrt)
+					for i := int64(0); i < at.Len(); i++ {
+						el := c.define(name+"_el", esrt, fmt.Sprintf("(select (select %s (s_arr %s)) (+ (s_off %s) %d))", earr, xs, xs, i))
+						c.wfStore(reach, pos, el, sl.Elem(), st, "append")
+					}
+				}
+			}
+		}
+	}
 	newLen := c.define(name+"_len", "Int", fmt.Sprintf("(+ (s_len %s) %s)", s, n))
 	inPlace := c.define(name+"_inplace", "Bool", fmt.Sprintf("(<= %s (s_cap %s))", newLen, s))
 	// FRAME: the in-place branch writes s's backing array
@@ -723,8 +842,10 @@ func (c *Ctx) execAppend(fr *Frame, st *State, reach, name string, pos token.Pos
 	fresh := c.newRef(st, reach, name+"_arr", nil)
 	newCap := c.havoc(name+"_cap", "Int")
 	c.assume(reach, fmt.Sprintf("(and (>= %s %s) (<= %s MAXLEN))", newCap, newLen, newCap))
-	res := c.define(name, "Slice", fmt.Sprintf("(ite %s (mk_slice (s_arr %s) (s_off %s) %s (s_cap %s)) (mk_slice %s 0 %s %s))",
-		inPlace, s, s, newLen, s, fresh, newLen, newCap))
+	// a constant (not a macro): it occurs inside quantifier patterns, where `ite` is not allowed
+	res := c.havoc(name, "Slice")
+	c.assume(reach, fmt.Sprintf("(= %s (ite %s (mk_slice (s_arr %s) (s_off %s) %s (s_cap %s)) (mk_slice %s 0 %s %s)))",
+		res, inPlace, s, s, newLen, s, fresh, newLen, newCap))
 	// contents of the result's backing array
 	na := c.havoc(name+"_elems", "(Array Int "+es+")")
 	k := c.fresh("k")
@@ -782,8 +903,14 @@ func (c *Ctx) contractMods(fn *ssa.Function, con *Contract) *ModSet {
 		return ms
 	}
 	for _, a := range con.Assigns {
-		if a == "EC" || a == "heap" {
+		if a == "heap" {
 			return &ModSet{Top: true}
+		}
+		if a == "EC" {
+			ms := newModSet()
+			ms.EC = true
+			ms.Locks = true
+			return ms
 		}
 	}
 	return inf
@@ -792,26 +919,32 @@ func (c *Ctx) contractMods(fn *ssa.Function, con *Contract) *ModSet {
 // callEffects applies a callee's heap effects and, for the FRAME family, demands that a callee which may
 // write pre-existing memory is covered by the caller's own assigns clause.
 func (c *Ctx) callEffects(st *State, reach string, pos token.Pos, ms *ModSet, what string) {
-	if c.wants("FRAME") && ms != nil && (ms.Top || len(ms.Arrays) > 0) {
-		allowed := false
+	if c.wants("FRAME") && ms != nil {
+		strict := c.contract != nil && c.contract.HasAssigns && len(c.contract.Assigns) == 0
+		allowedAll := false
 		if c.contract != nil && c.contract.HasAssigns {
 			for _, a := range c.contract.Assigns {
-				if a == "EC" || a == "heap" {
-					allowed = true
+				if a == "heap" {
+					allowedAll = true
 				}
 			}
-			if len(c.contract.Assigns) > 0 && !ms.Top {
-				allowed = true // object-level assigns: which objects is checked at the stores of the callee's own contract
-			}
 		}
-		if !allowed {
-			d := "callee " + what + " may write pre-existing memory ("
-			if ms.Top {
-				d += "unknown effects"
-			} else {
-				d += strings.Join(sortedKeys(ms.Arrays), ",")
+		var bad []string
+		if ms.Top {
+			bad = append(bad, "unknown effects")
+		}
+		if ms.EC && strict {
+			bad = append(bad, "the EC frame (variables, iterator state, stack traces)")
+		}
+		for _, n := range sortedKeys(ms.Arrays) {
+			if _, isEC := c.mods.ECArrays[n]; isEC && !strict {
+				continue
 			}
-			c.oblige("FRAME", "FRAME.call", pos, reach, "false", d+") but this function's frame does not allow it")
+			bad = append(bad, n)
+		}
+		if len(bad) > 0 && !allowedAll {
+			c.oblige("FRAME", "FRAME.call", pos, reach, "false",
+				"callee "+what+" may write pre-existing memory ("+strings.Join(bad, ",")+") outside this function's frame")
 		}
 	}
 	c.applyMods(st, ms)
